@@ -923,7 +923,7 @@ def compare_cases(terms, expected, tag, shard, HEADER=HEADER):
 def _set_value_direct(ctx):
     """Param.set_value alone for both index widths (protocol version 3 and 7): queue content or raised kind."""
     import logging
-    from fakes.c04_sched import Harness, exn_code
+    from fakes.c04_sched import Harness, exn_code, find_packet
     logging.disable(logging.CRITICAL)
     terms, exp, samples = [], [], []
     try:
@@ -943,13 +943,14 @@ def _set_value_direct(ctx):
                     for e in toc + [[0, 99, 0, 8, 0, 0]]:
                         spec = gen_setval(ctx.rng, e[3])
                         h.drain()
-                        q = h.updater.request_queue.q
-                        del q[:]
+                        rq = h.updater.request_queue
+                        rq.clear()
                         try:
                             h.cf.param.set_value(h.cname(e[1]), _py_value(spec, e[3]))
+                            q = [find_packet(x) for x in rq.pending()]
                             got = [1] + _enc_pkt(q[0].channel, bytes(q[0].data)) if len(q) == 1 else [7, len(q)]
                         except Exception as ex:   # noqa
-                            got = [0, exn_code(ex)] if not q else [8, exn_code(ex)]
+                            got = [0, exn_code(ex)] if not rq.qsize() else [8, exn_code(ex)]
                         terms.append('enc_setres (set_value %s %s %d (%s %s))' % (
                             tocs, coqrun.coq_bool(ver >= 4), e[1], 'VInt' if spec[0] == 'i' else 'VFlt', coqrun.z(spec[1])))
                         exp.append(got)
@@ -1312,14 +1313,13 @@ def _direct_float_overflow():
         h.cf.param.is_updated = True
         h.cf.param._initialized.set()
         for v in (1e39, -1e39, 3.5e38):
-            q = h.updater.request_queue.q
-            del q[:]
+            h.updater.request_queue.clear()
             try:
                 h.cf.param.set_value('g0.n0', v)
                 raised = False
             except Exception:   # noqa
                 raised = True
-            if q or not raised:
+            if h.updater.request_queue.qsize() or not raised:
                 fails.append({'class': 'out_of_range_value_transmitted', 'case': {'direct': 'float', 'value': v},
                               'detail': 'set_value(float parameter, %r) must raise, not transmit' % v})
     finally:
